@@ -194,6 +194,13 @@ def _negligible(v, thr):
 DEGENERATE = 1e-6
 
 
+def _vscale(scale, exact):
+    """a derivative VECTOR is judged relative to its own largest component as well (with weight ratios of 25000 the a-priori
+    scale underestimates high derivatives of rational shapes by many orders of magnitude; a component that is tiny only by
+    cancellation is not computable to a relative accuracy of its own)"""
+    return max(float(scale), max(abs(float(x)) for x in exact))
+
+
 def _norm(v):
     return math.sqrt(sum(float(x) ** 2 for x in v))
 
@@ -380,7 +387,7 @@ def _curve_case(case, ctx):
                         continue
                     for k in range(order + 1):
                         fk = dict(f, k=k)
-                        ctx.close('C02.curve.derivs.value', list(D[k]), E[u][(k,)], TOL, scale((k,)), rc, fk)
+                        ctx.close('C02.curve.derivs.value', list(D[k]), E[u][(k,)], TOL, _vscale(scale((k,)), E[u][(k,)]), rc, fk)
                         if k > p and not desc['rational']:
                             ctx.check('C02.curve.derivs.zero_above_degree', all(float(x) == 0.0 for x in D[k]), rc, fk,
                                       0.0, list(D[k]))
@@ -545,7 +552,7 @@ def _surface_case(case, ctx):
                     for k in range(order + 1):
                         for l in range(order + 1 - k):
                             fk = dict(f, k=k, l=l)
-                            ctx.close('C02.surface.derivs.value', list(D[k][l]), E[prm][(k, l)], TOL, scale((k, l)), rc, fk)
+                            ctx.close('C02.surface.derivs.value', list(D[k][l]), E[prm][(k, l)], TOL, _vscale(scale((k, l)), E[prm][(k, l)]), rc, fk)
                             if (k > pu or l > pv) and not desc['rational']:
                                 ctx.check('C02.surface.derivs.zero_above_degree', all(float(x) == 0.0 for x in D[k][l]),
                                           rc, fk, 0.0, list(D[k][l]))
